@@ -16,6 +16,7 @@ import PV.Model.CBO
 import PV.Model.Clone
 import PV.Model.Imports
 import PV.Model.Files
+import PV.Model.Agg
 /-!
 Line-protocol driver: runs the executable models on the cases the harness also ran on the
 implementation.  Core-only imports (links as a native executable).
@@ -464,6 +465,18 @@ def runGlob (t : Array String) : String :=
   let path := if t[1]! == "-" then [""] else t[1]!.splitOn "/"
   if PV.Files.glob (if t[0]! == "-" then "" else t[0]!) path then "1" else "0"
 
+/-! ### agg (C16) -/
+/-- `agg minv n (value class)*n` → `total sum max min | class=count,… (sorted) | kept` where the items are first filtered by `minv ≤ value` -/
+def runAgg (t : Array String) : String :=
+  if t.size < 2 then "bad-op" else
+  let minv := tokI t[0]!
+  let n := tokN t[1]!
+  let items := (List.range n).map fun k => (tokI (t.getD (2 + 2 * k) "0"), t.getD (3 + 2 * k) "-")
+  let kept := PV.Agg.keepMin minv items
+  let a := PV.Agg.aggregate kept
+  let cs := ((a.classes.map fun c => s!"{c.1}={c.2}").toArray.qsort (· < ·)).toList
+  s!"{a.total} {a.sum} {a.max} {a.min}|{joinWith "," cs}|{kept.length}"
+
 def step (line : String) : String :=
   let parts := (line.splitOn " ").filter (· ≠ "")
   match parts with
@@ -488,6 +501,7 @@ def step (line : String) : String :=
     | "imports" => runImports t
     | "files" => runFiles t
     | "glob" => runGlob t
+    | "agg" => runAgg t
     | "deps" => runDeps t
     | _ => "bad-op"
 
